@@ -20,6 +20,8 @@ W_PATHS = {'std::io::Write::write_all', 'std::io::Write::write', 'std::io::Write
            'std::os::unix::prelude::FileExt::write_at', 'std::os::unix::prelude::FileExt::write_all_at'}
 G_PATHS = {'fs4::FileExt::allocate', 'std::fs::File::set_len', 'fs4::fs_std::FileExt::allocate'}
 S_PATHS = {'std::fs::File::sync_all', 'std::fs::File::sync_data'}
+STD_FILE_LOCKS = {'std::fs::File::lock': 'lock_exclusive', 'std::fs::File::lock_shared': 'lock_shared', 'std::fs::File::try_lock': 'try_lock_exclusive',
+                  'std::fs::File::try_lock_shared': 'try_lock_shared', 'std::fs::File::unlock': 'unlock'}
 LOCK_PATHS = {'lock_exclusive', 'lock_shared', 'try_lock_exclusive', 'try_lock_shared', 'unlock', 'lock', 'try_lock'}
 O_PATHS = {'std::fs::File::metadata', 'std::io::Read::read', 'std::io::Read::read_exact', 'std::io::Read::read_to_end', 'std::io::Read::read_to_string',
            'std::io::Read::read_vectored', 'std::os::unix::fs::FileExt::read_at', 'std::os::unix::fs::FileExt::read_exact_at',
@@ -140,6 +142,9 @@ class Events:
             evs.append(dict(ev='O', fallible=True, callee=sp))
         if c.get('trait', '').endswith('FileExt') and last_seg(sp) in LOCK_PATHS and 'fs4' in path:
             evs.append(dict(ev='L', fallible=True, callee=sp, method=last_seg(sp)))
+        # the same advisory lock through the standard library (File::lock is flock(LOCK_EX) on unix)
+        if sp in STD_FILE_LOCKS and is_file_callee(c):
+            evs.append(dict(ev='L', fallible=True, callee=sp, method=STD_FILE_LOCKS[sp]))
         if sp in MAP_PATHS or (sp.startswith('memmap2::') and last_seg(sp).startswith('map')):
             evs.append(dict(ev='MAP', fallible=True, callee=sp))
         for role, ev in (('check-role', 'K'), ('tx-alloc-role', 'A'), ('tx-free-role', 'F'), ('DBInner::meta', 'HDR')):
